@@ -4,7 +4,7 @@ import re
 import glob
 from .lexer import lex, join, GHOST_OPEN, GHOST_CLOSE
 from .items import parse_expansion, match_close
-from .overlay import parse_overlay_file, subst, split_ghost, transplant, DIGITS
+from .overlay import parse_overlay_file, subst, split_ghost, transplant, drop_trailing_commas, DIGITS
 from . import rewrites as R
 
 
@@ -17,12 +17,16 @@ class Expansion:
         self.fns, self.others = parse_expansion(text)
         self.by = {}
         for f in self.fns:
-            self.by.setdefault((self._container(f.modpath, f.impl), f.name), []).append(f)
+            self.by.setdefault((self._container(f.modpath, f.impl, f.outer), f.name), []).append(f)
+        self.structs = {}
+        for o in self.others:
+            if o.kind in ('struct', 'enum'):
+                self.structs.setdefault(((o.outer + '::') if o.outer else ('::'.join(o.modpath) + '::' if o.modpath else '')) + o.name, []).append(o)
         self.consts = {}
         self.const_names = set()
         for o in self.others:
             if o.kind == 'const':
-                c = self._container(o.modpath, o.impl)
+                c = self._container(o.modpath, o.impl, o.outer)
                 self.consts.setdefault((c, o.name), []).append(o)
                 if o.impl is not None and ' for ' not in o.impl and self.impl_self(o.impl) in R.BNUM_TYPES:
                     self.const_names.add(o.name)
@@ -55,15 +59,16 @@ class Expansion:
         n = n.lstrip('&')
         return re.split(r'[<\s]', n)[0]
 
-    def _container(self, modpath, impl):
+    def _container(self, modpath, impl, outer=None):
+        pre = (outer + '::') if outer else ''
         if impl is None:
-            return '::'.join(modpath)
+            return outer if outer else '::'.join(modpath)
         n = self.norm_header(impl)
         if impl.startswith('trait'):
-            return 'trait(' + n + ')'
+            return pre + 'trait(' + n + ')'
         if 'for' in impl.split(' '):
-            return 'impl(' + n + ')'
-        return re.split(r'<', n)[0]
+            return pre + 'impl(' + n + ')'
+        return pre + re.split(r'<', n)[0]
 
     def find_fn(self, key):
         c, name = self.split_key(key)
@@ -100,7 +105,7 @@ class Overlay:
 
 class Item:
     """one generated item"""
-    __slots__ = ('entry', 'key', 'kind', 'container', 'impl_header', 'modpath', 'full', 'stub', 'ratio', 'identical', 'log', 'name', 'ghost_counts', 'code_tokens', 'canary_full', 'n_canaries')
+    __slots__ = ('entry', 'key', 'kind', 'container', 'impl_header', 'modpath', 'full', 'stub', 'ratio', 'identical', 'log', 'name', 'ghost_counts', 'code_tokens', 'canary_full', 'n_canaries', 'header_tokens', 'variant', 'assumed')
 
 
 def _proof_fn_stub(text):
@@ -120,6 +125,60 @@ def _proof_fn_stub(text):
             depth -= 1
     b = starts[-1]
     return '#[verifier::external_body]\n' + join(toks[:b]) + '{ }\n'
+
+
+CLAUSE_KW = ('requires', 'ensures', 'recommends', 'decreases', 'returns', 'opens_invariants', 'no_unwind')
+
+
+def split_header(h):
+    """header tokens -> (signature tokens, [(kw, tokens)])"""
+    depth = 0
+    cuts = []
+    for i, t in enumerate(h):
+        if t in '([{':
+            depth += 1
+        elif t in ')]}':
+            depth -= 1
+        elif depth == 0 and t in CLAUSE_KW:
+            cuts.append(i)
+    if not cuts:
+        return h, []
+    clauses = []
+    for a, b in zip(cuts, cuts[1:] + [len(h)]):
+        clauses.append((h[a], h[a + 1:b]))
+    return h[:cuts[0]], clauses
+
+
+def merge_stub_headers(headers):
+    sig, clauses = split_header(headers[0])
+    req = [c for k, c in clauses if k == 'requires']
+    ens = [c for k, c in clauses if k == 'ensures']
+    other = [(k, c) for k, c in clauses if k not in ('requires', 'ensures')]
+    for h in headers[1:]:
+        s2, c2 = split_header(h)
+        r2 = [c for k, c in c2 if k == 'requires']
+        if [x for x in r2] != [x for x in req]:
+            # the variants must have the same precondition; otherwise keep the conjunction (sound for callers)
+            req += r2
+        ens += [c for k, c in c2 if k == 'ensures']
+    out = list(sig)
+
+    def strip_comma(c):
+        c = list(c)
+        while c and c[-1] == ',':
+            c.pop()
+        return c
+    if req:
+        out.append('requires')
+        for i, c in enumerate(req):
+            out += strip_comma(c) + [',']
+    if ens:
+        out.append('ensures')
+        for i, c in enumerate(ens):
+            out += strip_comma(c) + [',']
+    for k, c in other:
+        out += [k] + list(c)
+    return '#[verifier::external_body]\n' + join(out) + '{ unimplemented!() }\n'
 
 
 def count_ghost(tokens):
@@ -165,6 +224,9 @@ class Generator:
             text = subst(e.text, self.digit)
             it.n_canaries = 0
             it.canary_full = None
+            it.header_tokens = None
+            it.variant = e.opts.get('variant')
+            it.assumed = 'assumed' in e.opts
             if e.kind in ('raw', 'spec'):
                 it.full = text
                 it.stub = text
@@ -177,7 +239,7 @@ class Generator:
                 it.name = e.key
                 it.modpath = ()
                 it.impl_header = None
-            elif e.kind in ('fn', 'const'):
+            elif e.kind in ('fn', 'const', 'struct'):
                 try:
                     self._build_code_item(it, text)
                 except LostAnchor as ex:
@@ -189,6 +251,8 @@ class Generator:
             else:
                 raise ValueError(e.kind)
             items.append(it)
+        proven_keys = {(it.kind, it.key) for it in items if it.kind in ('fn', 'const') and not it.assumed}
+        items = [it for it in items if not (it.assumed and (it.kind, it.key) in proven_keys)]
         self.items = items
         return items
 
@@ -204,6 +268,12 @@ class Generator:
             if not f.has_body:
                 raise LostAnchor(f'fn {it.key} has no body')
             sig, body, impl, modpath = list(f.sig), list(f.body), f.impl, f.modpath
+        elif e.kind == 'struct':
+            l = self.x.structs.get(it.key.replace(' ', ''), [])
+            if len(l) != 1:
+                raise LostAnchor(f'{len(l)} candidates for struct {it.key}')
+            o = l[0]
+            return list(o.tokens), [], None, ()
         else:
             l = self.x.find_const(it.key)
             if len(l) != 1:
@@ -233,6 +303,8 @@ class Generator:
 
     def _build_code_item(self, it, text):
         sig, body, impl, modpath = self._extract(it)
+        sig = drop_trailing_commas(sig)
+        body = drop_trailing_commas(body)
         C = sig + body
         otoks = lex(text)
         E, ghosts = split_ghost(otoks)
@@ -245,8 +317,15 @@ class Generator:
         it.modpath = modpath
         it.name = it.key
         it.code_tokens = len(C)
+        if it.kind == 'struct':
+            it.full = join(out)
+            it.stub = it.full
+            it.canary_full = it.full
+            it.n_canaries = 0
+            return
         b = cmap[len(sig)]
         header = out[:b]
+        it.header_tokens = header
         # drop leading visibility differences? keep as is.
         it.full = join(out)
         # canary variant: `assert(false)` at the top of the body and at the top of every loop body
@@ -320,14 +399,39 @@ class Generator:
             node.setdefault('items', []).append(it)
 
         def emit_node(node, depth):
-            for it in node.get('items', []):
-                own = (it.entry.unit == unit)
-                if it.kind in ('raw', 'spec'):
+            its = node.get('items', [])
+            # variants: several overlay entries (different units) for one function
+            groups = {}
+            for it in its:
+                if it.kind in ('fn', 'const'):
+                    groups.setdefault(it.key, []).append(it)
+            skip = set()
+            merged_stub = {}
+            for key, grp in groups.items():
+                if len(grp) > 1:
+                    owned = [g for g in grp if g.entry.unit == unit and not g.assumed]
+                    if len(owned) > 1:
+                        raise ValueError(f'two variants of {key} in unit {unit}')
+                    if owned:
+                        for g in grp:
+                            if g is not owned[0]:
+                                skip.add(id(g))
+                    else:
+                        merged_stub[id(grp[0])] = merge_stub_headers([g.header_tokens for g in grp])
+                        for g in grp[1:]:
+                            skip.add(id(g))
+            for it in its:
+                if id(it) in skip:
+                    continue
+                own = (it.entry.unit == unit) and not it.assumed
+                if it.kind in ('raw', 'spec', 'struct'):
                     emit(it.full, it)
                 elif it.kind == 'proof':
                     emit(it.full if own else it.stub, it if own else None)
                 else:
                     body = (it.canary_full if canary else it.full) if own else it.stub
+                    if id(it) in merged_stub:
+                        body = merged_stub[id(it)]
                     if it.impl_header is not None:
                         emit(it.impl_header + ' {')
                         emit(body, it if own else None)
